@@ -25,6 +25,7 @@ func init() {
 			"I5 the expected type is walked with the value: stores that unwrap TypeId.MapDim are dominated by a type-switch arm for a map-kind value and stores that decrement ArrayDim by an arm for an array-kind value, in the function or at every call (calls passing the opposite constant for a guarding boolean parameter exempt). " +
 			"I6 every binary search over a slice is dominated by a sort of the same slice. " +
 			"I7 the include recorded by BuildDataForAst does not depend on SourceFile.IncludedFrom. " +
+			"I8 every path-tail return of IncludeFilePath is dominated by a comparison of a path byte with '/'. " +
 			"NOT decided: equality of values after a round trip (struct/map decisions, float printing, string escapes - the latter are C09's), that the recorded invocation compiles.",
 		Assumptions: commonAssumptions,
 	}
@@ -35,6 +36,7 @@ func runC16(c *an.Ctx) {
 	ruleI5(c)
 	ruleI6(c)
 	ruleI7(c)
+	ruleI8(c)
 	corePath := an.ModPath + pkgCore
 	synPath := an.ModPath + pkgSyntax
 	entryNames := []string{"BuildCallAst", "convertToExp", "BuildDataForAst", "(*InvocationData).BuildCallAst", "(*Fork).writeInvocation", "fixExpressionTypes", "InvocationDataFromSource"}
